@@ -53,7 +53,7 @@ package part
 // node48 (C11, C04): children[0:size) are non-nil and sorted by their key byte; index maps a key
 // byte to 1 + the slot of the child with that key byte (0 = absent), in both directions.
 //@ spec keyOf(c *header) mathint = *c.prefixP
-//@ spec wf48(n *node48) bool = n != nil && kindOf(n.flags) == 4 && 1 <= sizeOf(n.flags) && sizeOf(n.flags) <= 48 && (forall i int :: 0 <= i && i < sizeOf(n.flags) ==> n.children[i] != nil && n.children[i].prefixP != nil && n.index[keyOf(n.children[i])] == i + 1) && (forall k int :: 0 <= k && k < 256 ==> n.index[k] <= sizeOf(n.flags) && (n.index[k] != 0 ==> keyOf(n.children[n.index[k] - 1]) == k)) && (forall i int, j int :: 0 <= i && i < j && j < sizeOf(n.flags) ==> keyOf(n.children[i]) < keyOf(n.children[j])) && (forall i int :: sizeOf(n.flags) <= i && i < 48 ==> n.children[i] == nil)
+//@ spec wf48(n *node48) bool = n != nil && kindOf(n.flags) == 4 && 1 <= sizeOf(n.flags) && sizeOf(n.flags) <= 48 && (forall i int :: 0 <= i && i < sizeOf(n.flags) ==> n.children[i] != nil && n.children[i].prefixP != nil && !isElemOf(node48, n.children[i].prefixP) && n.index[keyOf(n.children[i])] == i + 1) && (forall k int :: 0 <= k && k < 256 ==> n.index[k] <= sizeOf(n.flags) && (n.index[k] != 0 ==> keyOf(n.children[n.index[k] - 1]) == k)) && (forall i int, j int :: 0 <= i && i < j && j < sizeOf(n.flags) ==> keyOf(n.children[i]) < keyOf(n.children[j])) && (forall i int :: sizeOf(n.flags) <= i && i < 48 ==> n.children[i] == nil)
 
 //@ func (*header).node4
 //@   inline
@@ -128,18 +128,35 @@ package part
 //@ func (*header).insert
 //@   property C11 C04
 //@   maypanic
-//@   requires n != nil && child != nil && child.prefixP != nil && 0 <= idx && idx <= sizeOf(n.flags)
+//@   requires n != nil && child != nil && child.prefixP != nil && !isElemOf(node48, child.prefixP) && 0 <= idx && idx <= sizeOf(n.flags)
 //@   requires kindOf(n.flags) == 2 ==> wf4(as(node4, n)) && sizeOf(n.flags) < 4 && (idx > 0 ==> as(node4, n).keys[idx-1] < keyOf(child)) && (idx < sizeOf(n.flags) ==> keyOf(child) < as(node4, n).keys[idx])
 //@   requires kindOf(n.flags) == 3 ==> wf16(as(node16, n)) && sizeOf(n.flags) < 16 && (idx > 0 ==> as(node16, n).keys[idx-1] < keyOf(child)) && (idx < sizeOf(n.flags) ==> keyOf(child) < as(node16, n).keys[idx])
 //@   requires kindOf(n.flags) == 4 ==> wf48(as(node48, n)) && sizeOf(n.flags) < 48 && (idx > 0 ==> keyOf(as(node48, n).children[idx-1]) < keyOf(child)) && (idx < sizeOf(n.flags) ==> keyOf(child) < keyOf(as(node48, n).children[idx]))
 //@   requires kindOf(n.flags) == 5 ==> sizeOf(n.flags) < 256
 //@   requires 2 <= kindOf(n.flags) && kindOf(n.flags) <= 5
 //@   ensures @size sizeOf(n.flags) == old(sizeOf(n.flags)) + 1 && kindOf(n.flags) == old(kindOf(n.flags))
+//@   ensures @wf48-children kindOf(n.flags) == 4 ==> as(node48, n).children[idx] == child && (forall i int :: 0 <= i && i < sizeOf(n.flags) ==> as(node48, n).children[i] != nil && as(node48, n).children[i].prefixP != nil && !isElemOf(node48, as(node48, n).children[i].prefixP))
+//@   ensures @wf48-index-of-child kindOf(n.flags) == 4 ==> (forall i int :: 0 <= i && i < sizeOf(n.flags) ==> as(node48, n).index[keyOf(as(node48, n).children[i])] == i + 1)
+//@   ensureslocal @h-above kindOf(n.flags) == 4 ==> (forall k int :: 0 <= k && k < 256 && k != old(keyOf(child)) && old(as(node48, n).index[k]) != 0 && old(as(node48, n).index[k]) - 1 >= idx ==> as(node48, n).index[k] == old(as(node48, n).index[k]) + 1 && as(node48, n).children[old(as(node48, n).index[k])] == old(as(node48, n).children[old(as(node48, n).index[k]) - 1]))
+//@   ensureslocal @h-absent kindOf(n.flags) == 4 ==> (forall k int :: 0 <= k && k < 256 && k != old(keyOf(child)) && old(as(node48, n).index[k]) == 0 ==> as(node48, n).index[k] == 0)
+//@   ensureslocal @h-new kindOf(n.flags) == 4 ==> as(node48, n).index[old(keyOf(child))] == idx + 1 && as(node48, n).children[idx] == child
+//@   ensures @wf48-index-bound kindOf(n.flags) == 4 ==> (forall k int :: 0 <= k && k < 256 ==> as(node48, n).index[k] <= sizeOf(n.flags))
+//@   ensures @wf48-sorted kindOf(n.flags) == 4 ==> (forall i int, j int :: 0 <= i && i < j && j < sizeOf(n.flags) ==> keyOf(as(node48, n).children[i]) < keyOf(as(node48, n).children[j]))
+//@   ensures @wf48-tail-nil kindOf(n.flags) == 4 ==> (forall i int :: sizeOf(n.flags) <= i && i < 48 ==> as(node48, n).children[i] == nil)
 //@   ensures @shift48 kindOf(n.flags) == 4 ==> (forall i int :: 0 <= i && i < idx ==> as(node48, n).children[i] == old(as(node48, n).children[i])) && (forall i int :: idx < i && i < sizeOf(n.flags) ==> as(node48, n).children[i] == old(as(node48, n).children[i-1]))
 //@   ensures @direct256 kindOf(n.flags) == 5 ==> as(node256, n).children[old(keyOf(child))] == child && (forall k int :: 0 <= k && k < 256 && k != old(keyOf(child)) ==> as(node256, n).children[k] == old(as(node256, n).children[k]))
 //@   loop 1 invariant @range idx - 1 <= i && i <= size - 1 && size == old(sizeOf(n.flags)) && n48 == as(node48, n)
 //@   loop 1 invariant @kept forall j int :: 0 <= j && j < 48 && (j <= i + 1 || j > size) ==> n48.children[j] == old(as(node48, n).children[j])
 //@   loop 1 invariant @shifted forall j int :: i + 2 <= j && j <= size ==> n48.children[j] == old(as(node48, n).children[j-1])
+//@   loop 1 invariant @index-moved forall j int :: i < j && j < size ==> n48.index[keyOf(old(as(node48, n).children[j]))] == j + 2
+//@   loop 1 invariant @index-kept forall j int :: 0 <= j && j <= i ==> n48.index[keyOf(old(as(node48, n).children[j]))] == j + 1
+//@   loop 1 invariant @index-absent forall k int :: 0 <= k && k < 256 && old(as(node48, n).index[k]) == 0 ==> n48.index[k] == 0
+//@   loop 1 invariant @index-by-key forall k int :: 0 <= k && k < 256 ==> n48.index[k] == ((old(as(node48, n).index[k]) != 0 && old(as(node48, n).index[k]) - 1 > i) ? old(as(node48, n).index[k]) + 1 : old(as(node48, n).index[k]))
+//@   loop 1 invariant @prefix-bytes-untouched unchangedExcept(E_uint8, addr(n48.index))
+//@   atcall (*header).key@3 requires @moved-child-is-the-old-one $0 == old(as(node48, n).children[i])
+//@   atcall (*header).key@3 requires @moved-child-valid $0 != nil && $0.prefixP != nil
+//@   atcall (*header).key@3 requires @moved-child-index old(as(node48, n).index[keyOf($0)]) == i + 1
+//@   atcall (*header).key@3 requires @keys-are-distinct forall j int :: 0 <= j && j < size && j != i ==> keyOf(old(as(node48, n).children[j])) != keyOf($0)
 //@   ensures @wf4 kindOf(n.flags) == 2 ==> wf4(as(node4, n)) && as(node4, n).children[idx] == child && as(node4, n).keys[idx] == old(keyOf(child))
 //@   ensures @wf16 kindOf(n.flags) == 3 ==> wf16(as(node16, n)) && as(node16, n).children[idx] == child && as(node16, n).keys[idx] == old(keyOf(child))
 //@   ensures @shift4 kindOf(n.flags) == 2 ==> (forall i int :: 0 <= i && i < idx ==> as(node4, n).children[i] == old(as(node4, n).children[i])) && (forall i int :: idx < i && i < sizeOf(n.flags) ==> as(node4, n).children[i] == old(as(node4, n).children[i-1]))
